@@ -100,6 +100,7 @@ class TreeCfg:
         self.p_concept_is_var = 0.08
         self.p_colonless = 0.0     # role text without leading colon (hand-assembled trees)
         self.exotic_symbols = 0.1
+        self.p_pynum = 0.0         # numeric atoms as Python int/float objects (hand-assembled trees)
         self.__dict__.update(kw)
 
 
@@ -151,10 +152,12 @@ def random_tree(rng, cfg=None):
             return rand_string_const(rng_)
         r -= cfg.p_string
         if r < cfg.p_number:
+            if rng_.random() < cfg.p_pynum:
+                return rng_.choice([0, 1, -1, 0.0, 3.5, 12])
             return rng_.choice(NUMBERS)
         if rng_.random() < cfg.exotic_symbols:
             return rand_symbol(rng_)
-        return rng_.choice(['-', '+', 'imperative', 'expressive', 'val', 'x', 'foo', 'A', '"Kim"', 'http://x/y'])
+        return rng_.choice(['-', '+', 'imperative', 'expressive', 'val', 'x', 'foo', 'A', '"Kim"', '"http://x/y"'])
 
     def build(var, depth):
         defined.append(var)
@@ -206,7 +209,7 @@ def random_tree(rng, cfg=None):
                     if key in used_triples:
                         continue
                     used_triples.add(key)
-                branches.append((rl_a, a + (maybe_aln(rng, cfg.p_aln) if a else '')))
+                branches.append((rl_a, a if not isinstance(a, str) else a + (maybe_aln(rng, cfg.p_aln) if a else '')))
         return (var, branches)
 
     node = build(allvars[0], 0)
@@ -267,3 +270,113 @@ def mutate_text(rng, s):
         i, j = min(i, j), max(i, j)
         return s[:i] + s[j:j + 1] + s[i + 1:j] + s[i:i + 1] + s[j + 1:]
     return s[:i] + s[i:i + 3] + s[i:]
+
+
+# ------------------------------------------------------------------ graphs
+CONSTS = ['-', '+', 'x', 'val', '"Kim"', '"a b"', '"(p) :q ~r"', 0, 0.0, -1, 1, 3.5, None, 'imperative', '12', '"0"']
+GROLES = [':ARG0', ':ARG1', ':ARG2', ':op1', ':op2', ':op10', ':mod', ':domain', ':polarity', ':quant', ':r', ':R', ':S',
+          ':consist-of', ':x-y', ':time', ':name', ':', ':ARG0-of', ':r-of']
+
+
+def random_graph(rng, max_vars=5, max_extra=5, max_attrs=4, inverted_roles=True, roles=None):
+    """A well-formed weakly connected graph as a triple list (JSON-typed targets), in a random order."""
+    roles = roles or GROLES
+    if not inverted_roles:
+        roles = [r for r in roles if not r.endswith('-of') or r == ':consist-of']
+    n = rng.randint(1, max_vars)
+    vs = rng.sample(VARS, n)
+    tr = []
+    for v in vs:
+        c = rng.random()
+        tr.append([v, ':instance', None if c < 0.2 else (rng.choice(vs) if c < 0.3 else rng.choice(CONCEPTS))])
+    seen = set()
+
+    def add(t):
+        k = (t[0], t[1], repr(t[2]))
+        if k not in seen:
+            seen.add(k)
+            tr.append(t)
+    for i in range(1, n):
+        j = rng.randrange(i)
+        r = rng.choice(roles)
+        add([vs[j], r, vs[i]] if rng.random() < 0.6 else [vs[i], r, vs[j]])
+    for _ in range(rng.randint(0, max_extra)):
+        add([rng.choice(vs), rng.choice(roles), rng.choice(vs)])
+    for _ in range(rng.randint(0, max_attrs)):
+        add([rng.choice(vs), rng.choice(roles), rng.choice(CONSTS)])
+    order = rng.random()
+    if order < 0.5:
+        rng.shuffle(tr)
+    elif order < 0.7:
+        tr.reverse()
+    return tr, vs
+
+
+def corrupt_markers(rng, tr, epi, vs, edits=1):
+    """
+    Edit history on the layout markers (Push/POP) and the order of a decoded graph (property C06).
+    Alignment markers stay with their triples; only layout markers are dropped, added, swapped or left
+    behind when triples move.
+    """
+    tr = [list(t) for t in tr]
+    lay = [[dict(m) for m in e if m['m'] in ('push', 'pop')] for e in epi]
+    aln = [[dict(m) for m in e if m['m'] not in ('push', 'pop')] for e in epi]
+    for _ in range(edits):
+        op = rng.choice(['drop', 'drop_all_pops', 'add_push', 'add_pop', 'swap', 'shuffle', 'rotate', 'dup_push', 'strip', 'move'])
+        n = len(tr)
+        if n == 0:
+            break
+        if op == 'drop':
+            for e in lay:
+                e[:] = [m for m in e if rng.random() < 0.6]
+        elif op == 'drop_all_pops':
+            for e in lay:
+                e[:] = [m for m in e if m['m'] != 'pop']
+        elif op == 'add_push':
+            lay[rng.randrange(n)].insert(0, {'m': 'push', 'v': rng.choice(vs)})
+        elif op == 'dup_push':
+            pushes = [m for e in lay for m in e if m['m'] == 'push']
+            if pushes:
+                lay[rng.randrange(n)].append(dict(rng.choice(pushes)))
+        elif op == 'add_pop':
+            for _ in range(rng.randint(1, 2)):
+                lay[rng.randrange(n)].append({'m': 'pop', 'v': ''})
+        elif op == 'swap' and n >= 2:
+            i, j = rng.sample(range(n), 2)
+            lay[i], lay[j] = lay[j], lay[i]
+        elif op == 'shuffle':
+            perm = list(range(n))
+            rng.shuffle(perm)
+            tr = [tr[i] for i in perm]           # layout markers stay in place: they now sit on other triples
+            aln = [aln[i] for i in perm]
+        elif op == 'rotate':
+            k = rng.randrange(n)
+            tr, lay, aln = tr[k:] + tr[:k], lay[k:] + lay[:k], aln[k:] + aln[:k]
+        elif op == 'move' and n >= 2:
+            i, j = rng.sample(range(n), 2)
+            t_, l_, a_ = tr.pop(i), lay.pop(i), aln.pop(i)
+            tr.insert(j, t_)
+            lay.insert(j, l_)
+            aln.insert(j, a_)
+        elif op == 'strip':
+            lay[rng.randrange(n)] = []
+    # role alignments first, then layout, then target alignments would be the decoded order; any order is a valid history
+    return tr, [a + l for a, l in zip(aln, lay)]
+
+
+def arbitrary_triples(rng, maxn=6):
+    """Any list of triples: ill-formed, disconnected, duplicates, missing instances, odd targets."""
+    vs = rng.sample(VARS, rng.randint(1, 4))
+    pool = vs + ['k', 'q']
+    tr = []
+    for _ in range(rng.randint(0, maxn)):
+        r = rng.random()
+        if r < 0.3:
+            tr.append([rng.choice(pool), ':instance', rng.choice([None, 'c', rng.choice(pool)])])
+        elif r < 0.8:
+            tr.append([rng.choice(pool), rng.choice(GROLES), rng.choice(pool)])
+        else:
+            tr.append([rng.choice(pool), rng.choice(GROLES), rng.choice(CONSTS)])
+        if rng.random() < 0.1 and tr:
+            tr.append(list(rng.choice(tr)))
+    return tr, vs
